@@ -13,16 +13,24 @@
            and, independently, "no UpperBound entry is ever written" (analyze_no_upper).
 
    RESIDUES (explicit premises):
-     HashRule hs      legal positions with equal hash have equal rule keys (no collision; C08);
-     a REGION P       a set of legal positions, closed under generated legal moves, on which the heuristic score of
-                      a position that has a legal move is not a terminal score (Region P, HeurNTOn P).
+     a REGION P       a set of legal positions, closed under generated legal moves (Region P), on which the
+                      heuristic score of a position that has a legal move is not a terminal score (HeurNTOn P).
                       The global form (P = every legal position: HeurNonTerminal) is what the task text names, but
-                      it is FALSE (EvalBound.nonterminal_counterexample: K+9Q+2R+2B+2N v K scores 10388), so the
-                      theorems are stated relative to a region; the global form is the instance P := LegalPos. *)
+                      it is FALSE (EvalBound.nonterminal_counterexample: K+9Q+2R+2B+2N v K scores 10388; and
+                      MateRegion.wall_violation is a legal position where the search reports a mate that does
+                      not exist), so the theorems are stated relative to a region; the global form is the
+                      instance P := LegalPos.  MateRegion.v discharges the residue for "at most ten men".
+     HashRuleOn P hs  positions of P with equal hash have equal rule keys (no collision; C08).  The task's global
+                      HashRule hs is the instance P := LegalPos.
+
+   The working table invariant (TOk P hs) is symmetric in the bound kinds (ScoreOkU), so analyze_sound needs no
+   UpperBound-freeness; NoUpper is needed only by the iterative driver (an interrupted iteration reports the root
+   entry's value whatever its kind).  The task's ScoreOk / TScore / NoUpper / TInv form is recovered by
+   TOk_of_TScore / TScore_of_TOk (sound_call_literal, sound_iterative_literal). *)
 From Coq Require Import NArith ZArith List Bool Lia ZifyBool ZifyN ZifyNat.
 From WV Require Import Types Bits Attacks Board MoveEnc MoveGen Text Table Eval Search.
 From WV Require Import Rules Abs Wf Encode GameValue.
-From WV Require Import BoardProofs GenLegal TableProofs HashProofs EvalProofs SearchBase SearchProofs SearchSafety.
+From WV Require Import BoardProofs GenLegal TableProofs HashProofs EvalProofs EvalBound SearchBase SearchProofs SearchSafety.
 From WV Require Export MateValue.
 Import ListNotations.
 Import WV.Bits.
@@ -32,7 +40,8 @@ Open Scope Z_scope.
 (* definitions                                                          *)
 (* ------------------------------------------------------------------ *)
 
-(* what a table entry may claim about a position with its key *)
+(* what a table entry may claim about a position with its key (the task's form: nothing is known of UpperBound
+   entries, so tables are also required to be free of them: NoUpper) *)
 Definition ScoreOk (e : entry) (s : state) : Prop :=
   (POS_INF <= e_eval e -> (e_kind e = Exact \/ e_kind e = LowerBound) -> Won s) /\
   (e_eval e <= NEG_INF -> e_kind e = Exact -> Lost s).
@@ -43,12 +52,25 @@ Definition TScore (hs : hasher) (tt : access) : Prop :=
 Definition NoUpper (tt : access) : Prop :=
   forall h e, acc_find tt h = Some e -> e_kind e <> UpperBound.
 
-(* the invariant of the table carried through the search *)
-Definition TOk (hs : hasher) (tt : access) : Prop := tt_ok tt /\ TScore hs tt /\ NoUpper tt.
-
-(* the named no-collision residue *)
+(* the named no-collision residue, global form *)
 Definition HashRule (hs : hasher) : Prop :=
   forall s1 s2, LegalPos s1 -> LegalPos s2 -> hash hs s1 = hash hs s2 -> rulekey s1 = rulekey s2.
+
+(* the working invariant, relative to a region P of positions.  It is symmetric in the bound kinds (an
+   UpperBound entry with a losing terminal value must be a real loss), so that analyze_sound needs no
+   UpperBound-freeness; and it carries the legality of the stored move (needed for the prioritised move of the
+   next iteration). *)
+Definition ScoreOkU (e : entry) (s : state) : Prop :=
+  (POS_INF <= e_eval e -> (e_kind e = Exact \/ e_kind e = LowerBound) -> Won s) /\
+  (e_eval e <= NEG_INF -> (e_kind e = Exact \/ e_kind e = UpperBound) -> Lost s).
+Definition EntryOk (e : entry) (s : state) : Prop := ScoreOkU e s /\ In (e_move e) (MoveGen.legal_moves s).
+Definition TEntries (P : state -> Prop) (hs : hasher) (tt : access) : Prop :=
+  forall h e, acc_find tt h = Some e -> forall s, P s -> hash hs s = h -> EntryOk e s.
+Definition TOk (P : state -> Prop) (hs : hasher) (tt : access) : Prop := tt_ok tt /\ TEntries P hs tt.
+
+(* no collision between positions of the region *)
+Definition HashRuleOn (P : state -> Prop) (hs : hasher) : Prop :=
+  forall s1 s2, P s1 -> P s2 -> hash hs s1 = hash hs s2 -> rulekey s1 = rulekey s2.
 
 (* the material caveat of C05, relative to a region of positions *)
 Definition HeurNTOn (P : state -> Prop) : Prop :=
@@ -80,11 +102,30 @@ Lemma POS_INF_val : POS_INF = 10000. Proof. reflexivity. Qed.
 Lemma NEG_INF_val : NEG_INF = -10000. Proof. reflexivity. Qed.
 Ltac infs := pose proof POS_INF_val; pose proof NEG_INF_val.
 
-Lemma TOk_empty : forall hs nt nb, (0 < nt)%nat -> (0 < nb)%nat -> TOk hs (empty_access nt nb).
+Lemma TOk_empty : forall P hs nt nb, (0 < nt)%nat -> (0 < nb)%nat -> TOk P hs (empty_access nt nb).
 Proof.
-  intros hs nt nb Hnt Hnb. split; [apply tt_ok_empty; assumption|]. split.
-  - intros h e H. pose proof (empty_refines nt nb Hnt Hnb h e H) as H1. discriminate H1.
-  - intros h e H. pose proof (empty_refines nt nb Hnt Hnb h e H) as H1. discriminate H1.
+  intros P hs nt nb Hnt Hnb. split; [apply tt_ok_empty; assumption|].
+  intros h e H. pose proof (empty_refines nt nb Hnt Hnb h e H) as H1. discriminate H1.
+Qed.
+
+Lemma NoUpper_empty : forall nt nb, (0 < nt)%nat -> (0 < nb)%nat -> NoUpper (empty_access nt nb).
+Proof. intros nt nb Hnt Hnb h e H. pose proof (empty_refines nt nb Hnt Hnb h e H) as H1. discriminate H1. Qed.
+
+(* the task's table invariants (with UpperBound-freeness and C03's stored-move invariant) give the working one,
+   and back *)
+Lemma TOk_of_TScore : forall hs tt, tt_ok tt -> TScore hs tt -> NoUpper tt -> TInv hs tt -> TOk LegalPos hs tt.
+Proof.
+  intros hs tt Hok Hsc Hnu Hinv. split; [exact Hok|]. intros h e Hf s HL Hh.
+  destruct (Hsc h e Hf s HL Hh) as [Hw Hl]. split; [|exact (Hinv h e Hf s HL Hh)].
+  split; [exact Hw|]. intros H1 [H2|H2]; [exact (Hl H1 H2)|]. exfalso. exact (Hnu h e Hf H2).
+Qed.
+
+Lemma TScore_of_TOk : forall hs tt, TOk LegalPos hs tt -> tt_ok tt /\ TScore hs tt /\ TInv hs tt.
+Proof.
+  intros hs tt [Hok He]. split; [exact Hok|]. split.
+  - intros h e Hf s HL Hh. destruct (He h e Hf s HL Hh) as [[Hw Hl] _]. split; [exact Hw|].
+    intros H1 H2. apply Hl; [exact H1|left; exact H2].
+  - intros h e Hf s HL Hh. exact (proj2 (He h e Hf s HL Hh)).
 Qed.
 
 (* ------------------------------------------------------------------ *)
@@ -181,7 +222,7 @@ Qed.
 Section Sound.
 Variable hs : hasher.
 Variable P : state -> Prop.
-Hypothesis HR : HashRule hs.
+Hypothesis HR : HashRuleOn P hs.
 Hypothesis P_legal : forall s, P s -> LegalPos s.
 Hypothesis P_step : forall s m ns, P s -> In (m, ns) (gen_legal s) -> P ns.
 Hypothesis P_heur : HeurNTOn P.
@@ -267,68 +308,74 @@ Qed.
 
 (* ---- (3) the table ---- *)
 
-Lemma TOk_insert : forall tt s e, TOk hs tt -> LegalPos s -> ScoreOk e s -> e_kind e <> UpperBound ->
-  TOk hs (acc_insert tt (hash hs s) e).
+Lemma TOk_insert : forall tt s e, TOk P hs tt -> P s -> EntryOk e s -> TOk P hs (acc_insert tt (hash hs s) e).
 Proof.
-  intros tt s e (Hok & Hsc & Hnu) HL Hs Hk. split; [apply tt_ok_insert; exact Hok|]. split.
-  - intros h x Hfind s' HL' Hh.
-    destruct (acc_find_insert_cases _ _ _ _ _ Hok Hfind) as [[Hkk ->]|[_ Hold]].
-    + assert (Ekey : rulekey s = rulekey s') by (apply HR; [exact HL|exact HL'|congruence]).
-      destruct Hs as [Hw Hl]. split.
-      * intros H1 H2. exact (same_key_won s s' HL HL' Ekey (Hw H1 H2)).
-      * intros H1 H2. exact (same_key_lost s s' HL HL' Ekey (Hl H1 H2)).
-    + exact (Hsc h x Hold s' HL' Hh).
-  - intros h x Hfind. destruct (acc_find_insert_cases _ _ _ _ _ Hok Hfind) as [[_ ->]|[_ Hold]];
-      [exact Hk | exact (Hnu h x Hold)].
+  intros tt s e (Hok & Hen) HP Hs. split; [apply tt_ok_insert; exact Hok|].
+  intros h x Hfind s' HP' Hh.
+  destruct (acc_find_insert_cases _ _ _ _ _ Hok Hfind) as [[Hkk ->]|[_ Hold]]; [|exact (Hen h x Hold s' HP' Hh)].
+  pose proof (P_legal s HP) as HL. pose proof (P_legal s' HP') as HL'.
+  assert (Ekey : rulekey s = rulekey s') by (apply HR; [exact HP|exact HP'|congruence]).
+  destruct Hs as [[Hw Hl] Hm]. split; [split|].
+  - intros H1 H2. exact (same_key_won s s' HL HL' Ekey (Hw H1 H2)).
+  - intros H1 H2. exact (same_key_lost s s' HL HL' Ekey (Hl H1 H2)).
+  - unfold MoveGen.legal_moves in Hm |- *.
+    rewrite <- (same_key_same_moves s s' (GenPawnsNoDup.legal_pos_wf s HL) (GenPawnsNoDup.legal_pos_wf s' HL') Ekey).
+    exact Hm.
 Qed.
 
-Lemma probe_sound : forall tt s md cd a b, TOk hs tt -> LegalPos s -> a < b ->
+Lemma probe_sound : forall tt s md cd a b, TOk P hs tt -> P s -> a < b ->
   match probe tt (hash hs s) md cd a b with
-  | PEarly v => (POS_INF <= v -> Won s) /\ (v <= NEG_INF -> v < b -> Lost s)
-  | PWindow a1 b1 => b1 = b /\ a <= a1 /\ a1 < b /\ (POS_INF <= a1 -> a < a1 -> Won s)
+  | PEarly v => (POS_INF <= v -> a < v -> Won s) /\ (v <= NEG_INF -> v < b -> Lost s)
+  | PWindow a1 b1 => a <= a1 /\ a1 < b1 /\ b1 <= b /\ (POS_INF <= a1 -> a < a1 -> Won s) /\
+                     (b1 <= NEG_INF -> b1 < b -> Lost s)
   | PPanic _ => True
   end.
 Proof.
-  intros tt s md cd a b (Hok & Hsc & Hnu) HL Hab. unfold probe.
-  assert (Hwin : a = a -> b = b /\ a <= a /\ a < b /\ (POS_INF <= a -> a < a -> Won s)).
-  { intros _. split; [reflexivity|]. split; [lia|]. split; [exact Hab|]. intros _ Hc. lia. }
+  intros tt s md cd a b (Hok & Hen) HP Hab. unfold probe.
+  assert (Hwin : a = a -> a <= a /\ a < b /\ b <= b /\ (POS_INF <= a -> a < a -> Won s) /\ (b <= NEG_INF -> b < b -> Lost s)).
+  { intros _. split; [lia|]. split; [exact Hab|]. split; [lia|]. split; intros _ Hc; lia. }
   destruct (acc_find tt (hash hs s)) as [e|] eqn:Ef; [|exact (Hwin eq_refl)].
   destruct (md <? cd)%N; [exact Logic.I|]. destruct (e_maxdepth e <? e_depth e)%N; [exact Logic.I|].
   destruct (md - cd <=? e_maxdepth e - e_depth e)%N; [|exact (Hwin eq_refl)].
-  destruct (Hsc _ e Ef s HL eq_refl) as [Hw Hl]. pose proof (Hnu _ e Ef) as Hk.
+  destruct (Hen _ e Ef s HP eq_refl) as [[Hw Hl] _].
   destruct (e_kind e) eqn:Ek.
-  - split; [intros H; apply Hw; [exact H|left; reflexivity] | intros H _; apply Hl; [exact H|reflexivity]].
-  - contradiction Hk. reflexivity.
+  - split; [intros H _; apply Hw; [exact H|left; reflexivity] | intros H _; apply Hl; [exact H|left; reflexivity]].
+  - cbv zeta. destruct (Z.min b (e_eval e) <=? a) eqn:Hc.
+    + split; [intros H1 H2; lia | intros H _; apply Hl; [exact H|right; reflexivity]].
+    + split; [lia|]. split; [lia|]. split; [lia|]. split; [intros _ H2; lia|].
+      intros H1 H2. apply Hl; [lia|right; reflexivity].
   - cbv zeta. destruct (b <=? Z.max a (e_eval e)) eqn:Hc.
-    + split; [intros H; apply Hw; [exact H|right; reflexivity] | intros H1 H2; lia].
-    + split; [reflexivity|]. split; [lia|]. split; [lia|]. intros H1 H2.
-      apply Hw; [lia|right; reflexivity].
+    + split; [intros H _; apply Hw; [exact H|right; reflexivity] | intros H1 H2; lia].
+    + split; [lia|]. split; [lia|]. split; [lia|]. split; [|intros _ H2; lia].
+      intros H1 H2. apply Hw; [lia|right; reflexivity].
 Qed.
 
 (* ---- (4) the move loop ---- *)
 
 Definition post (s : state) (a b : Z) (r : sres Z) : Prop :=
   match r with
-  | SVal v w' => (POS_INF <= v -> a < v -> Won s) /\ (v <= NEG_INF -> v < b -> Lost s) /\ TOk hs (w_tt w')
-  | SInterrupt w' => TOk hs (w_tt w')
+  | SVal v w' => (POS_INF <= v -> a < v -> Won s) /\ (v <= NEG_INF -> v < b -> Lost s) /\ TOk P hs (w_tt w')
+  | SInterrupt w' => TOk P hs (w_tt w')
   | _ => True
   end.
 
 Definition rec_ok (rec : rec_t) : Prop :=
-  forall ns md cd ce a b w, P ns -> a < b -> TOk hs (w_tt w) -> post ns a b (rec ns md cd ce a b None w).
+  forall ns md cd ce a b w, P ns -> a < b -> TOk P hs (w_tt w) -> post ns a b (rec ns md cd ce a b None w).
 
+(* a = the node's alpha, b = the node's beta; alpha / b1 = the running window (raised / lowered by the table
+   and by the children searched so far) *)
 Lemma loop_sound : forall (rec : rec_t), rec_ok rec ->
-  forall s md cd ce ext a b1 prev, P s ->
+  forall s md cd ce ext a b b1 prev, P s -> b1 <= b -> (b1 <= NEG_INF -> b1 < b -> Lost s) ->
   forall l, (forall m, In m l -> In m (MoveGen.pseudo_legal s)) ->
   forall alpha best kind w,
-    TOk hs (w_tt w) -> a <= alpha -> alpha < b1 ->
+    TOk P hs (w_tt w) -> a <= alpha -> alpha < b1 ->
     (POS_INF <= alpha -> a < alpha -> Won s) ->
-    (forall bm, best = Some bm -> kind = Exact /\ a < alpha) ->
+    (forall bm, best = Some bm -> kind = Exact /\ a < alpha /\ In bm (MoveGen.legal_moves s)) ->
     (prev = w_nodes w \/ gen_legal s <> []) ->
     (forall m ns, In (m, ns) (gen_legal s) -> In m l \/ (alpha <= NEG_INF -> Won ns)) ->
-    post s a b1 (loop_body rec s (hash hs s) md cd ce ext b1 prev l alpha best kind w).
+    post s a b (loop_body rec s (hash hs s) md cd ce ext b1 prev l alpha best kind w).
 Proof.
-  intros rec Hrec s md cd ce ext a b1 prev HP l. pose proof (P_legal s HP) as HL. infs.
+  intros rec Hrec s md cd ce ext a b b1 prev HP Hb1 HK l. pose proof (P_legal s HP) as HL. infs.
   induction l as [|m tl IH]; intros Hl alpha best kind w HT Hge Hab HJ Hbest Hprev Hcov; cbn [loop_body].
   - destruct (prev =? w_nodes w)%N eqn:Hpn.
     + unfold eval_or_panic. destruct (evaluate s (st_turn s) cd) as [v|] eqn:Ee; [|exact Logic.I].
@@ -340,9 +387,9 @@ Proof.
       { intros Hn. apply (lost_of_children_won s HL Hne). intros m ns Hin.
         destruct (Hcov m ns Hin) as [[]|Hw]. exact (Hw Hn). }
       destruct best as [bm|].
-      * destruct (Hbest bm eq_refl) as [-> Haa]. cbn [post w_tt].
+      * destruct (Hbest bm eq_refl) as (-> & Haa & Hbm). cbn [post w_tt].
         split; [exact HJ|]. split; [intros Hn _; exact (HLs Hn)|].
-        apply TOk_insert; [exact HT|exact HL| |cbn [e_kind]; discriminate].
+        apply TOk_insert; [exact HT|exact HP|]. split; [|exact Hbm].
         split; cbn [e_eval e_kind]; [intros H1 _; exact (HJ H1 Haa) | intros H1 _; exact (HLs H1)].
       * cbn [post]. split; [exact HJ|]. split; [intros Hn _; exact (HLs Hn)|exact HT].
   - assert (Htl : forall m', In m' tl -> In m' (MoveGen.pseudo_legal s)) by (intros m' Hm'; apply Hl; right; exact Hm').
@@ -352,7 +399,7 @@ Proof.
       intros m' ns' Hin. destruct (Hcov m' ns' Hin) as [[<-|Hm']|Hw]; [|left; exact Hm'|right; exact Hw].
       exfalso. destruct (gen_legal_not_hit s m ns' Hin) as (_ & Ha' & Hk'). rewrite Ha in Ha'. injection Ha' as <-.
       rewrite Hk in Hk'. discriminate Hk'.
-    + destruct (searched_move s m ns HL (Hl m (or_introl eq_refl)) Ha Hk) as (Hg & _ & _).
+    + destruct (searched_move s m ns HL (Hl m (or_introl eq_refl)) Ha Hk) as (Hg & _ & Hml).
       pose proof (P_step s m ns HP Hg) as HPn.
       assert (Hwin : - b1 < - alpha) by lia.
       pose proof (Hrec ns (md + ext)%N (cd + 1 + ext)%N (ce + ext)%N (- b1) (- alpha) w HPn Hwin HT) as Hc.
@@ -366,13 +413,13 @@ Proof.
       cbv zeta. destruct (b1 <=? - r) eqn:Hcut.
       * assert (HW : POS_INF <= b1 -> Won s).
         { intros Hp. apply (won_of_child_lost s m ns HL Hg). apply HcL; lia. }
-        cbn [post w_tt]. split; [intros H1 _; exact (HW H1)|]. split; [intros _ H2; lia|].
-        apply TOk_insert; [exact HT'|exact HL| |cbn [e_kind]; discriminate].
-        split; cbn [e_eval e_kind]; [intros H1 _; exact (HW H1) | intros _ H2; discriminate H2].
+        cbn [post w_tt]. split; [intros H1 _; exact (HW H1)|]. split; [exact HK|].
+        apply TOk_insert; [exact HT'|exact HP|]. split; [|exact Hml].
+        split; cbn [e_eval e_kind]; [intros H1 _; exact (HW H1) | intros _ [H2|H2]; discriminate H2].
       * destruct (alpha <? - r) eqn:Hr.
         -- apply IH; [exact Htl|exact HT'|lia|lia| | | |].
            ++ intros Hp _. apply (won_of_child_lost s m ns HL Hg). apply HcL; lia.
-           ++ intros bm _. split; [reflexivity|lia].
+           ++ intros bm E. injection E as <-. split; [reflexivity|]. split; [lia|exact Hml].
            ++ right. exact Hne.
            ++ intros m' ns' Hin. destruct (Hcov m' ns' Hin) as [[<-|Hm']|Hw]; [|left; exact Hm'|].
               ** right. intros Hn. rewrite (Hsame ns' Hin). apply HcW; lia.
@@ -386,7 +433,7 @@ Qed.
 (* ---- (5) one node ---- *)
 
 Lemma node_sound : forall history jit cancel (rec : rec_t), rec_ok rec ->
-  forall s md cd ce a b prio w, P s -> a < b -> TOk hs (w_tt w) ->
+  forall s md cd ce a b prio w, P s -> a < b -> TOk P hs (w_tt w) ->
   (forall pm, prio = Some pm -> In pm (MoveGen.legal_moves s)) ->
   post s a b (node_body hs history jit cancel rec s md cd ce a b prio w).
 Proof.
@@ -397,18 +444,19 @@ Proof.
   - cbn [post with_trace w_tt]. rewrite ?enter_node_tt. unfold EVEN.
     split; [intros; lia|]. split; [intros; lia|exact HT].
   - unfold node_continue. cbn [with_trace w_tt]. rewrite ?enter_node_tt.
-    pose proof (probe_sound (w_tt w) s md cd a b HT HL Hab) as Hp.
+    pose proof (probe_sound (w_tt w) s md cd a b HT HP Hab) as Hp.
     destruct (probe (w_tt w) (hash hs s) md cd a b) as [v|a1 b1|site]; [| |exact Logic.I].
     + cbn [post w_tt]. rewrite ?enter_node_tt. destruct Hp as [H1 H2].
-      split; [intros X _; exact (H1 X)|]. split; [exact H2|exact HT].
-    + destruct Hp as (-> & Hge & Hlt & HJ).
+      split; [exact H1|]. split; [exact H2|exact HT].
+    + destruct Hp as (Hge & Hlt & Hle & HJ & HK).
       destruct (md <=? cd)%N.
-      * destruct (quiesce (S (men s)) s cd a1 b) as [v|site|] eqn:Eq; [|exact Logic.I|exact Logic.I].
+      * destruct (quiesce (S (men s)) s cd a1 b1) as [v|site|] eqn:Eq; [|exact Logic.I|exact Logic.I].
         cbn [post w_tt]. rewrite ?enter_node_tt.
         destruct (quiesce_sound _ _ _ _ _ _ HP Hlt Eq) as [Q1 Q2].
-        split; [|split; [exact Q2|exact HT]]. intros Hp Hav.
-        destruct (Z_lt_le_dec a1 v) as [Hc|Hc]; [exact (Q1 Hp Hc)|]. apply HJ; lia.
-      * apply (loop_sound rec Hrec s md cd ce _ a b _ HP).
+        split; [|split; [|exact HT]].
+        -- intros Hp Hav. destruct (Z_lt_le_dec a1 v) as [Hc|Hc]; [exact (Q1 Hp Hc)|]. apply HJ; lia.
+        -- intros Hn Hvb. destruct (Z_lt_le_dec v b1) as [Hc|Hc]; [exact (Q2 Hn Hc)|]. apply HK; lia.
+      * apply (loop_sound rec Hrec s md cd ce _ a b b1 _ HP Hle HK).
         -- intros m Hm. apply ordered_moves_in in Hm. destruct Hm as [Hm|Hm]; [exact Hm|].
            apply legal_in_pseudo. exact (Hprio m Hm).
         -- cbn [with_jidx with_trace w_tt]. rewrite ?enter_node_tt. exact HT.
@@ -424,7 +472,7 @@ Qed.
 (* ---- (6) analyze ---- *)
 
 Theorem analyze_sound : forall history jit cancel fuel s maxd cur ext a b prio w,
-  P s -> a < b -> TOk hs (w_tt w) -> (forall pm, prio = Some pm -> In pm (MoveGen.legal_moves s)) ->
+  P s -> a < b -> TOk P hs (w_tt w) -> (forall pm, prio = Some pm -> In pm (MoveGen.legal_moves s)) ->
   post s a b (analyze hs history jit cancel fuel s maxd cur ext a b prio w).
 Proof.
   intros history jit cancel. induction fuel as [|k IH]; intros s maxd cur ext a b prio w HP Hab HT Hprio; [exact Logic.I|].
@@ -437,17 +485,26 @@ Qed.
 Definition EvSound (s : state) (l : list event) : Prop :=
   forall ev line, In (EvBest ev line) l -> POS_INF <= ev -> Won s.
 
-Lemma HashRule_faithful : HashFaithful hs.
-Proof. apply hash_injective_faithful. exact HR. Qed.
+Definition TOkN (tt : access) : Prop := TOk P hs tt /\ NoUpper tt.
+
+Lemma iter_moves_head : forall fuel tt s idx maxd mv tl, TOk P hs tt -> P s ->
+  iter_moves hs fuel tt s idx maxd = mv :: tl -> In mv (MoveGen.legal_moves s).
+Proof.
+  intros [|k] tt s idx maxd mv tl [_ Hen] HP E; cbn [iter_moves] in E; [discriminate E|].
+  destruct (maxd <? idx)%N; [discriminate E|].
+  destruct (acc_find tt (hash hs s)) as [e|] eqn:Ef; [|discriminate E].
+  destruct (apply_move s (e_move e)); [|discriminate E]. injection E as <- _.
+  exact (proj2 (Hen _ e Ef s HP eq_refl)).
+Qed.
 
 Lemma iterate_sound : forall jit_of cancel iters depth s history tt gnodes flag trace nt be bm acc,
-  P s -> TOk hs tt -> TInv hs tt -> (forall m, bm = Some m -> In m (MoveGen.legal_moves s)) -> EvSound s acc ->
+  P s -> TOkN tt -> (forall m, bm = Some m -> In m (MoveGen.legal_moves s)) -> EvSound s acc ->
   let r := iterate hs jit_of cancel iters depth s history tt gnodes flag trace nt be bm acc in
-  EvSound s (r_events r) /\ TOk hs (r_tt r) /\ TInv hs (r_tt r).
+  EvSound s (r_events r) /\ TOkN (r_tt r).
 Proof.
   intros jit_of cancel iters. induction iters as [|k IH];
-    intros depth s history tt gnodes flag trace nt be bm acc HP HT HI Hbm Hacc; cbn [iterate].
-  - cbn [r_events r_tt]. split; [|auto]. intros ev line Hin. apply in_rev in Hin. exact (Hacc ev line Hin).
+    intros depth s history tt gnodes flag trace nt be bm acc HP HT Hbm Hacc; cbn [iterate].
+  - cbn [r_events r_tt]. split; [|exact HT]. intros ev line Hin. apply in_rev in Hin. exact (Hacc ev line Hin).
   - assert (Hrev : forall l, EvSound s l -> EvSound s (rev l)).
     { intros l H ev line Hin. apply in_rev in Hin. exact (H ev line Hin). }
     destruct ((0 <? depth)%N && flag); [cbn [r_events r_tt]; auto|]. cbv zeta.
@@ -455,40 +512,179 @@ Proof.
     set (w0 := mkW tt 0 0 gnodes flag trace).
     assert (Hroot : - mate_in_ply 0 < mate_in_ply 0) by (destruct (mate_scores 0%N) as (H1 & _); lia).
     pose proof (analyze_sound history (jit_of depth) cancel (S (S (N.to_nat depth))) s (depth + 1)%N 0%N 0%N
-                  (- mate_in_ply 0) (mate_in_ply 0) bm w0 HP Hroot HT Hbm) as Hs.
-    pose proof (table_inv hs history (jit_of depth) cancel (S (S (N.to_nat depth))) s (depth + 1)%N 0%N 0%N
-                  (- mate_in_ply 0) (mate_in_ply 0) bm w0 HashRule_faithful (proj1 HT) HI HL Hbm) as Hi.
+                  (- mate_in_ply 0) (mate_in_ply 0) bm w0 HP Hroot (proj1 HT) Hbm) as Hs.
+    pose proof (analyze_no_upper hs history (jit_of depth) cancel (S (S (N.to_nat depth))) s (depth + 1)%N 0%N 0%N
+                  (- mate_in_ply 0) (mate_in_ply 0) bm w0 (conj (proj1 (proj1 HT)) (proj2 HT))) as Hn.
     destruct (analyze hs history (jit_of depth) cancel (S (S (N.to_nat depth))) s (depth + 1)%N 0%N 0%N
-                      (- mate_in_ply 0) (mate_in_ply 0) bm w0) as [ev w|w|site|]; cbn [post] in Hs.
-    + destruct Hs as (HsW & _ & HT'). destruct Hi as [_ HI'].
-      pose proof (lines_legal hs (S (S (N.to_nat depth))) (w_tt w) s 0%N depth HI' HL) as Hline.
+                      (- mate_in_ply 0) (mate_in_ply 0) bm w0) as [ev w|w|site|]; cbn [post] in Hs; cbn [nu_post] in Hn.
+    + destruct Hs as (HsW & _ & HT'). destruct Hn as [_ Hnu'].
       assert (Hev : POS_INF <= ev -> Won s).
       { intros Hp. apply HsW; [exact Hp|]. assert (E : mate_in_ply 0 = 11000) by reflexivity. lia. }
-      destruct (iter_moves hs (S (S (N.to_nat depth))) (w_tt w) s 0%N depth) as [|mv tl].
-      * cbn [r_events r_tt]. split; [|auto]. apply Hrev. intros ev' line [E|Hin]; [discriminate E|exact (Hacc ev' line Hin)].
+      destruct (iter_moves hs (S (S (N.to_nat depth))) (w_tt w) s 0%N depth) as [|mv tl] eqn:El.
+      * cbn [r_events r_tt]. split; [|exact (conj HT' Hnu')]. apply Hrev.
+        intros ev' line [E|Hin]; [discriminate E|exact (Hacc ev' line Hin)].
       * assert (Hacc2 : EvSound s (EvBest ev (mv :: tl) :: EvProgress (depth + 1)%N (nt + w_nodes w)%N :: acc)).
         { intros ev' line [E|[E|Hin]]; [|discriminate E|exact (Hacc ev' line Hin)].
           injection E as <- _. exact Hev. }
-        destruct (POS_INF <=? ev); [cbn [r_events r_tt]; auto|].
-        apply IH; try assumption. intros m E. injection E as <-. exact (proj1 Hline).
-    + destruct Hi as [_ HI']. cbn [r_events r_tt]. split; [|auto]. apply Hrev.
+        destruct (POS_INF <=? ev); [cbn [r_events r_tt]; split; [apply Hrev; exact Hacc2|exact (conj HT' Hnu')]|].
+        apply IH; [exact HP|exact (conj HT' Hnu')| |exact Hacc2].
+        intros m E. injection E as <-. exact (iter_moves_head _ _ _ _ _ _ _ HT' HP El).
+    + destruct Hn as [_ Hnu']. cbn [r_events r_tt]. split; [|exact (conj Hs Hnu')]. apply Hrev.
       destruct (acc_find (w_tt w) (hash hs s)) as [x|] eqn:Ef; [|exact Hacc].
       destruct ((be <? e_eval x) && _); [|exact Hacc].
       intros ev' line [E|Hin]; [|exact (Hacc ev' line Hin)]. injection E as <- _. intros Hp.
-      destruct Hs as (_ & Hsc & Hnu). destruct (Hsc _ x Ef s HL eq_refl) as [Hw _].
-      apply Hw; [exact Hp|]. pose proof (Hnu _ x Ef) as Hk. destruct (e_kind x); [left|contradiction Hk|right]; reflexivity.
+      destruct Hs as [_ Hen]. destruct (Hen _ x Ef s HP eq_refl) as [[Hw _] _].
+      apply Hw; [exact Hp|]. pose proof (Hnu' _ x Ef) as Hk. destruct (e_kind x); [left|contradiction Hk|right]; reflexivity.
     + cbn [r_events r_tt]. auto.
     + cbn [r_events r_tt]. auto.
 Qed.
 
 Theorem iterative_sound : forall jit_of cancel iters s history tt,
-  P s -> TOk hs tt -> TInv hs tt ->
+  P s -> TOk P hs tt -> NoUpper tt ->
   let r := analyze_iterative hs jit_of cancel iters s history tt in
   (forall ev line, In (EvBest ev line) (r_events r) -> POS_INF <= ev -> Won s) /\
-  TOk hs (r_tt r) /\ TInv hs (r_tt r).
+  TOk P hs (r_tt r) /\ NoUpper (r_tt r).
 Proof.
-  intros jit_of cancel iters s history tt HP HT HI. unfold analyze_iterative.
-  apply iterate_sound; try assumption; [intros m E; discriminate E | intros ev line []].
+  intros jit_of cancel iters s history tt HP HT Hnu. unfold analyze_iterative.
+  apply iterate_sound; [exact HP|exact (conj HT Hnu)|intros m E; discriminate E|intros ev line []].
 Qed.
 
 End Sound.
+
+(* ------------------------------------------------------------------ *)
+(* final forms                                                          *)
+(* ------------------------------------------------------------------ *)
+
+Theorem Won_iff_Win : forall s, Won s <-> exists n, Win n (abs s).
+Proof.
+  intros s. split; intros [n H]; exists n; [apply win_iff_Win; exact H | apply win_iff_Win; exact H].
+Qed.
+
+Theorem Lost_iff_Loss : forall s, Lost s <-> exists n, Loss n (abs s).
+Proof.
+  intros s. split; intros [n H]; exists n; [apply loss_iff_Loss; exact H | apply loss_iff_Loss; exact H].
+Qed.
+
+(* one call of analyze_recursive, region form *)
+Theorem sound_call : forall hs P, HashRuleOn P hs -> Region P -> HeurNTOn P ->
+  forall history jit cancel fuel s maxd cur ext a b prio w,
+  P s -> a < b -> TOk P hs (w_tt w) -> (forall pm, prio = Some pm -> In pm (MoveGen.legal_moves s)) ->
+  match analyze hs history jit cancel fuel s maxd cur ext a b prio w with
+  | SVal r w' => (POS_INF <= r -> a < r -> Won s) /\ (r <= NEG_INF -> r < b -> Lost s) /\ TOk P hs (w_tt w')
+  | SInterrupt w' => TOk P hs (w_tt w')
+  | _ => True
+  end.
+Proof.
+  intros hs P HR [HPl HPs] HPh history jit cancel fuel s maxd cur ext a b prio w HP Hab HT Hprio.
+  exact (analyze_sound hs P HR HPl HPs HPh history jit cancel fuel s maxd cur ext a b prio w HP Hab HT Hprio).
+Qed.
+
+Theorem sound_quiesce : forall P, Region P -> HeurNTOn P ->
+  forall fuel s depth a b r, P s -> a < b -> quiesce fuel s depth a b = QVal r ->
+  (POS_INF <= r -> a < r -> Won s) /\ (r <= NEG_INF -> r < b -> Lost s).
+Proof.
+  intros P [HPl HPs] HPh fuel s depth a b r HP Hab E.
+  exact (quiesce_sound P HPl HPs HPh fuel s depth a b r HP Hab E).
+Qed.
+
+Theorem sound_iterative : forall hs P, HashRuleOn P hs -> Region P -> HeurNTOn P ->
+  forall jit_of cancel iters s history tt, P s -> TOk P hs tt -> NoUpper tt ->
+  let r := analyze_iterative hs jit_of cancel iters s history tt in
+  (forall ev line, In (EvBest ev line) (r_events r) -> POS_INF <= ev -> Won s) /\
+  TOk P hs (r_tt r) /\ NoUpper (r_tt r).
+Proof.
+  intros hs P HR [HPl HPs] HPh jit_of cancel iters s history tt HP HT Hnu.
+  exact (iterative_sound hs P HR HPl HPs HPh jit_of cancel iters s history tt HP HT Hnu).
+Qed.
+
+(* UpperBound-free tables stay UpperBound-free (no residue at all: only the shape of the table) *)
+Theorem no_upper_bound : forall hs history jit cancel fuel s maxd cur ext a b prio w,
+  tt_ok (w_tt w) -> NoUpper (w_tt w) ->
+  match analyze hs history jit cancel fuel s maxd cur ext a b prio w with
+  | SVal _ w' => tt_ok (w_tt w') /\ NoUpper (w_tt w')
+  | SInterrupt w' => tt_ok (w_tt w') /\ NoUpper (w_tt w')
+  | _ => True
+  end.
+Proof.
+  intros hs history jit cancel fuel s maxd cur ext a b prio w H1 H2.
+  pose proof (analyze_no_upper hs history jit cancel fuel s maxd cur ext a b prio w (conj H1 H2)) as H.
+  destruct (analyze hs history jit cancel fuel s maxd cur ext a b prio w); exact H.
+Qed.
+
+Lemma iterate_no_upper : forall hs jit_of cancel iters depth s history tt gnodes flag trace nt be bm acc,
+  NU tt -> NU (r_tt (iterate hs jit_of cancel iters depth s history tt gnodes flag trace nt be bm acc)).
+Proof.
+  intros hs jit_of cancel iters. induction iters as [|k IH]; intros depth s history tt gnodes flag trace nt be bm acc H;
+    cbn [iterate]; [exact H|].
+  destruct ((0 <? depth)%N && flag); [exact H|]. cbv zeta.
+  pose proof (analyze_no_upper hs history (jit_of depth) cancel (S (S (N.to_nat depth))) s (depth + 1)%N 0%N 0%N
+                (- mate_in_ply 0) (mate_in_ply 0) bm (mkW tt 0 0 gnodes flag trace) H) as Hn.
+  destruct (analyze _ _ _ _ _ _ _ _ _ _ _ _ _) as [ev w|w|site|]; cbn [nu_post] in Hn; try exact H; [|exact Hn].
+  destruct (iter_moves _ _ _ _ _ _); [exact Hn|]. destruct (POS_INF <=? ev); [exact Hn|]. apply IH. exact Hn.
+Qed.
+
+Theorem no_upper_bound_iterative : forall hs jit_of cancel iters s history tt,
+  tt_ok tt -> NoUpper tt ->
+  tt_ok (r_tt (analyze_iterative hs jit_of cancel iters s history tt)) /\
+  NoUpper (r_tt (analyze_iterative hs jit_of cancel iters s history tt)).
+Proof.
+  intros hs jit_of cancel iters s history tt H1 H2. unfold analyze_iterative.
+  exact (iterate_no_upper hs jit_of cancel iters _ s _ tt _ _ _ _ _ _ _ (conj H1 H2)).
+Qed.
+
+(* instance: the positions reachable from the root *)
+Theorem sound_iterative_reach : forall hs s, LegalPos s -> HashRuleOn (Reach s) hs -> HeurNTOn (Reach s) ->
+  forall jit_of cancel iters history tt, TOk (Reach s) hs tt -> NoUpper tt ->
+  let r := analyze_iterative hs jit_of cancel iters s history tt in
+  (forall ev line, In (EvBest ev line) (r_events r) -> POS_INF <= ev -> exists n, Win n (abs s)) /\
+  TOk (Reach s) hs (r_tt r) /\ NoUpper (r_tt r).
+Proof.
+  intros hs s HL HR HH jit_of cancel iters history tt HT Hnu.
+  destruct (sound_iterative hs (Reach s) HR (Reach_region s HL) HH jit_of cancel iters s history tt
+              (Reach_root s) HT Hnu) as (H1 & H2 & H3).
+  split; [|exact (conj H2 H3)]. intros ev line Hin Hp. apply Won_iff_Win. exact (H1 ev line Hin Hp).
+Qed.
+
+(* the statements in the task's literal form: global residues, the task's ScoreOk / TScore.  NOTE: the premise
+   HeurNonTerminal is refutable (heur_global_false below), so these three are formally vacuous; they are kept
+   because they are the instances P := LegalPos of the region theorems, which are not. *)
+Theorem heur_global_false : ~ HeurNonTerminal.
+Proof.
+  intros H. apply EvalBound.nonterminal_counterexample. intros s p d HL Hg.
+  exists (heuristic (st_board s) p). split; [exact (eval_has_move s p d HL Hg)|exact (H s p HL Hg)].
+Qed.
+
+Theorem sound_call_literal : forall hs, HashRule hs -> HeurNonTerminal ->
+  forall history jit cancel fuel s maxd cur ext a b prio w r w',
+  tt_ok (w_tt w) -> TScore hs (w_tt w) -> NoUpper (w_tt w) -> TInv hs (w_tt w) ->
+  LegalPos s -> a < b -> (forall pm, prio = Some pm -> In pm (MoveGen.legal_moves s)) ->
+  analyze hs history jit cancel fuel s maxd cur ext a b prio w = SVal r w' ->
+  (POS_INF <= r -> a < r -> Won s) /\ (r <= NEG_INF -> r < b -> Lost s) /\
+  tt_ok (w_tt w') /\ TScore hs (w_tt w') /\ NoUpper (w_tt w') /\ TInv hs (w_tt w').
+Proof.
+  intros hs HR HH history jit cancel fuel s maxd cur ext a b prio w r w' H1 H2 H3 H4 HL Hab Hprio E.
+  pose proof (sound_call hs LegalPos HR LegalPos_region HH history jit cancel fuel s maxd cur ext a b prio w
+                HL Hab (TOk_of_TScore hs _ H1 H2 H3 H4) Hprio) as Hs.
+  pose proof (no_upper_bound hs history jit cancel fuel s maxd cur ext a b prio w H1 H3) as Hn.
+  rewrite E in Hs, Hn. destruct Hs as (A & B & C). destruct (TScore_of_TOk hs _ C) as (C1 & C2 & C3).
+  split; [exact A|]. split; [exact B|]. split; [exact C1|]. split; [exact C2|]. split; [exact (proj2 Hn)|exact C3].
+Qed.
+
+Theorem sound_quiesce_literal : HeurNonTerminal ->
+  forall fuel s depth a b r, LegalPos s -> a < b -> quiesce fuel s depth a b = QVal r ->
+  (POS_INF <= r -> a < r -> Won s) /\ (r <= NEG_INF -> r < b -> Lost s).
+Proof. intros HH. exact (sound_quiesce LegalPos LegalPos_region HH). Qed.
+
+Theorem sound_iterative_literal : forall hs, HashRule hs -> HeurNonTerminal ->
+  forall jit_of cancel iters s history tt,
+  LegalPos s -> tt_ok tt -> TScore hs tt -> NoUpper tt -> TInv hs tt ->
+  let r := analyze_iterative hs jit_of cancel iters s history tt in
+  (forall ev line, In (EvBest ev line) (r_events r) -> POS_INF <= ev -> Won s) /\
+  tt_ok (r_tt r) /\ TScore hs (r_tt r) /\ NoUpper (r_tt r) /\ TInv hs (r_tt r).
+Proof.
+  intros hs HR HH jit_of cancel iters s history tt HL H1 H2 H3 H4.
+  destruct (sound_iterative hs LegalPos HR LegalPos_region HH jit_of cancel iters s history tt HL
+              (TOk_of_TScore hs _ H1 H2 H3 H4) H3) as (A & B & C).
+  destruct (TScore_of_TOk hs _ B) as (B1 & B2 & B3).
+  split; [exact A|]. split; [exact B1|]. split; [exact B2|]. split; [exact C|exact B3].
+Qed.
